@@ -24,7 +24,9 @@ GROUPS = {"g1": ["h0", "h5"], "g2": ["h3", "h2"], "g3": ["g1", "h1"], "g4": ["h7
 
 
 def hook_def(name, allow_failure=None, extra=None):
-    args = ["hookrec", name] + ["%s={{ %s }}" % (v, v) for v in ALL_VARS] + ["envtpl={{ env.V_ALL }}/{{ env.V_GD }}/{{ env.V_D }}/{{ env.V_ID }}"]
+    args = ["hookrec", name] + ["%s={{ %s }}" % (v, v) for v in ALL_VARS] + ["envtpl={{ env.V_ALL }}/{{ env.V_GD }}/{{ env.V_D }}/{{ env.V_ID }}",
+                                                                                   # an argument made of template statements only (no {{ }} expression)
+                                                                                   "{% if is_clean_hook %}stmt=clean{% else %}stmt=other{% endif %}{# comment #}"]
     h = {"name": name, "type": PALETTE[name], "cmd": "@EXE@", "args": args}
     if allow_failure is not None:
         h["allow_failure"] = allow_failure
@@ -215,6 +217,10 @@ def judge(req, obs):
         for k, v in exp.items():
             if args.get(k) != v:
                 add("hook-vars", "%s|%s" % (etype, k), "%s=%r for a %s hook" % (k, v, etype), "%r" % args.get(k))
+        want_stmt = "clean" if exp.get("is_clean_hook") == "true" else "other"
+        if args.get("stmt") != want_stmt:
+            add("hook-vars", "%s|statement-only-template" % etype, "an argument consisting of template statements is rendered too: stmt=%s" % want_stmt,
+                "%r" % ([x for x in h.get("argv", []) if "stmt" in x or "{%" in x][:1] or args.get("stmt")))
         if etype.startswith("post-") and info == "failure" and args.get("status") in ("", "success"):
             add("hook-vars", "post-operation|status-on-failure", "failure carries the error text", "%r" % args.get("status"))
         # environment precedence
@@ -240,6 +246,7 @@ def judge(req, obs):
         def vars_of(h):
             a = dict(x.split("=", 1) for x in h.get("argv", []) if "=" in x)
             a.pop("is_clean_hook", None)
+            a.pop("stmt", None)  # (the statement-only argument is derived from is_clean_hook)
             return a
         ref = vars_of(chal[-1][0]) if len(chal) else {}
         # compare per attempt: the last challenge hook before each clean hook
